@@ -303,7 +303,7 @@ def normalize_item(text, log):
 
 # ------------------------------------------------------------------ merge
 
-def merge(annotated_code, anns, new_code):
+def merge(annotated_code, anns, new_code, body_hints=True):
     """place annotations (given relative to annotated_code) into new_code"""
     old = [t for t in lex(annotated_code) if t.code]
     new_all = lex(new_code)
@@ -341,6 +341,18 @@ def merge(annotated_code, anns, new_code):
                 k -= 1
             j = (o2n[k] + 1) if k >= 0 else 0
             lost += 1
+        if not body_hints and not _is_signature_level(new, j, txt):
+            lost += 1
+            continue
+        if not _is_clause(txt) and not re.match(r'^\s*\w+:\s*$', txt) and not _at_stmt_boundary(new, j):
+            # the statement this hint was attached to has changed shape: a statement-level ghost block can only
+            # go between statements; drop it (hint lost) rather than produce unparsable text
+            lost += 1
+            continue
+        if _is_clause(txt) and not _clause_context_ok(new, j):
+            # e.g. a loop invariant whose `while` became an `if`: the hint cannot be placed; drop it
+            lost += 1
+            continue
         placed.setdefault(j, []).append(txt)
     out = []
     ci = 0
@@ -353,6 +365,96 @@ def merge(annotated_code, anns, new_code):
     if len(new) in placed:
         out.append('\n' + '\n'.join(placed[len(new)]) + '\n')
     return ''.join(out), hoisted, drift, lost
+
+
+def _is_clause(txt):
+    w = txt.strip().split(None, 1)
+    return bool(w) and w[0] in ('invariant', 'invariant_except_break', 'decreases', 'ensures', 'requires', 'recommends')
+
+
+def _is_signature_level(new, j, txt):
+    """requires/ensures/decreases on a fn header, or an item-level annotation (spec fn / impl block inside or
+    before an impl): position is outside every fn body"""
+    # inside a fn body <=> some enclosing `{` belongs to a fn (header contains `fn`)
+    depth = 0
+    k = j - 1
+    while k >= 0:
+        t = new[k]
+        if t.kind == 'punct' and t.text in ')]}':
+            depth += 1
+        elif t.kind == 'punct' and t.text in '([{':
+            if depth == 0:
+                if t.text == '{':
+                    # header of this block
+                    h = k - 1
+                    d2 = 0
+                    words = []
+                    while h >= 0:
+                        u = new[h]
+                        if u.kind == 'punct' and u.text in ')]}':
+                            d2 += 1
+                        elif u.kind == 'punct' and u.text in '([{':
+                            if d2 == 0:
+                                break
+                            d2 -= 1
+                        elif u.kind == 'punct' and u.text == ';' and d2 == 0:
+                            break
+                        elif d2 == 0:
+                            words.append(u.text)
+                        h -= 1
+                    if 'fn' in words:
+                        return False
+                else:
+                    return False   # inside parentheses / brackets
+            else:
+                depth -= 1
+        k -= 1
+    return True
+
+
+def _at_stmt_boundary(new, j):
+    if j <= 0 or j > len(new):
+        return True
+    prev = new[j - 1]
+    if prev.kind == 'punct' and prev.text in (';', '{', '}', ','):
+        return True
+    # after a match arm arrow `=>` (hint at the start of an arm expression is not supported) -> no
+    return False
+
+
+def _clause_context_ok(new, j):
+    """a clause annotation goes right before the `{` of a loop body or of a fn body (or before `where`):
+    check that the header it is attached to is still a loop / fn header"""
+    if j >= len(new):
+        return False
+    if new[j].text not in ('{', 'where'):
+        # e.g. `it:` style insertions are not clauses; anything else is misplaced
+        return False
+    k = j - 1
+    depth = 0
+    while k >= 0:
+        t = new[k]
+        if t.kind == 'punct' and t.text in ')]}':
+            depth += 1
+        elif t.kind == 'punct' and t.text in '([{':
+            if depth == 0:
+                break
+            depth -= 1
+        elif t.kind == 'punct' and t.text == ';' and depth == 0:
+            break
+        k -= 1
+    first = new[k + 1:j]
+    words = [t.text for t in first[:6]]
+    if not words:
+        return False
+    if words[0] in ('while', 'loop', 'for'):
+        return True
+    if 'fn' in words:
+        return True
+    # labelled loops:  'outer: loop
+    if len(words) >= 3 and first[0].kind == 'lifetime' and words[2] in ('while', 'loop', 'for'):
+        return True
+    return False
 
 
 # ------------------------------------------------------------------ stubbing
@@ -635,6 +737,10 @@ def build(entries, verify_units, repo=None, extra_false_ensures=False):
             log = {}
             new_code = normalize_item(L.text, log)
             merged, hoisted, drift, lost = merge(code, anns, new_code)
+            if lost:
+                # a hint could not be placed: later hints may depend on its ghost variables, so all
+                # body-level hints of this item are dropped; contracts (fn-level clauses) stay
+                merged, hoisted, drift, lost = merge(code, anns, new_code, body_hints=False)
             variants = [(merged, hoisted, '')]
             if e.inst:
                 par, tys = e.inst
